@@ -93,6 +93,11 @@ func corpus() []scen.Scenario {
 	}
 	out = append(out, selfEnd(0))
 	out = append(out, raceOnly(0)...)
+	for _, sc := range raceOnly(1) { // a second chance for the detection that depends most on the run's timing
+		if sc.Source == "lancero" {
+			out = append(out, sc)
+		}
+	}
 	return out
 }
 
@@ -133,6 +138,19 @@ func raceOnly(v int) []scen.Scenario {
 			Ops: ops("trig", v%3, "wait", 3, "mix", 8+2*v, "sendall", "wait", 2, "mix", 4, "wait", 1)},
 		{Kind: "race", Source: "abaco", Nchan: 3 + v%2, Groups: 1 + v%2, Unwrap: true, Seed: uint64(91 + v),
 			Ops: ops("trig", 1, "wait", 6+2*v)},
+		// fire-and-forget requests followed by further requests: state labels with WaitForError=false
+		{Kind: "race", Source: []string{"triangle", "simpulse"}[v%2], Nchan: 2 + v, Seed: uint64(101 + v),
+			Ops: ops("trig", 1, "wstart", v%2, "wait", 2, "labelnw", 3, "wait", 1, "labelnw", 4+v, "rcomment", 2, "labelnw", 2, "label", 9, "wait", 1, "wstop")},
+		// fault path: a stalled disk (FIFOs nobody reads) until the 1000-record queues of the data files are full
+		{Kind: "race", Source: "simpulse", Nchan: 3 + v%2, Pulse: 2000, Seed: uint64(111 + v),
+			Ops: ops("trig", 3, "wslow", "trigfast", "wait", 30+4*v, "wstop", "wait", 2)},
+		// fault path: a Lancero card that loses bytes (reads that begin mid-frame) early in the run
+		{Kind: "race", Source: "lancero", Nchan: 16, Drops: true, Seed: uint64(121 + v),
+			Ops: ops("idle", 650+50*v, "trig", v%3, "wait", 2)},
+		// the same quiet client (no requests, one sleep) on the scripted Abaco source: reader and block assembly
+		// left to themselves
+		{Kind: "race", Source: "abaco", Nchan: 2 + v%2, Groups: 1 + v%2, ExtTrig: true, Unwrap: v%2 == 1, Seed: uint64(131 + v),
+			Ops: ops("idle", 500+50*v, "wait", 1)},
 	}
 }
 
@@ -394,7 +412,7 @@ var inventory = []struct {
 	{11, "writingState", regexp.MustCompile(`writingState|\bws\.`)},
 	{8, "trigger-rate slice", regexp.MustCompile(`countsSeen|CountsSeen`)},
 	{14, "SourceControl.status", regexp.MustCompile(`s\.status|isSourceActive`)},
-	{17, "Lancero mix", regexp.MustCompile(`errorScale|\.Mix\[|lastFb`)},
+	{17, "Lancero assembler state (mix, external-trigger search)", regexp.MustCompile(`errorScale|\.Mix\[|lastFb|externalTriggerLastState|previousLastSampleTime`)},
 	{4, "block segments", regexp.MustCompile(`segments\[|rawData|datacopies|\*dc|dc\[`)},
 	{7, "records", regexp.MustCompile(`record|rec\.`)},
 	{6, "processor state", regexp.MustCompile(`dsp\.|processors`)},
